@@ -276,7 +276,7 @@ Proof.
   revert Hna. cbn [step]. change (set_rpc_log t []) with (fresh t).
   destruct (w_add_appointment sc (fresh t) signer loc b delay sig) as [r t'|s t'] eqn:Ea; cbn [wrap snd]; [|intros []].
   intros _. exists r, t'. split; [reflexivity|].
-  pose proof (TowerBreach.add_appointment_triggered sc (fresh t) signer loc b delay sig d r t' Hd Ea) as H.
+  pose proof (TowerBreach.add_appointment_triggered sc (fresh t) signer loc b delay sig d r t' (inv_user_rows (fresh t) (TowerBreach.inv_fresh t (bi_inv t HB))) Hd Ea) as H.
   unfold late_outcome. destruct r as [st sg sl e| | |]; try exact H.
   destruct H as [u [H1 [H2 [H3 [H4 [H5 H6]]]]]]. exists u. repeat (split; [assumption|]).
   destruct (decrypt b d) as [p|].
